@@ -355,7 +355,92 @@ def warmup(ctx, rec):
         ctx.probe('warmup_boundary_discriminated')
 
 
-ORACLES = {'cadence': cadence, 'refine': refine, 'warmup': warmup}
+# --------------------------------------------------------------- C05 grafting
+def graft(ctx, rec):
+  """No momentum, no weight decay: the update is -lr * (grafted step)."""
+  w, view = rec['world'], rec['view']
+  cfg, t = w.cfg, rec['t']
+  mk = _modekey(w)
+  if cfg['momentum']['momentum_decay'] or cfg['momentum']['weight_decay']:
+    return
+  gt = cfg['graft']['grafting_type']
+  if gt == 'none':
+    return
+  S = cfg['graft']['start_preconditioning_step']
+  lr = ref.lr_value(w.lr_spec, t)
+  u32 = U64 if rec['x64'] and view.so == 'shampoo' else U32
+  for i, lay in enumerate(view.lays):
+    if i in rec['poisoned']:
+      for o in ('graft_norm', 'graft_dir', 'warmup_graft'):
+        ctx.ev(o, 'muted')
+      continue
+    m = model_leaf(w, view, rec, i)
+    u = np.asarray(rec['updates'][i], np.float64)
+    if u.size == 0:
+      continue
+    gamma = m['gamma']
+    if lay['masked'] or t < S:
+      want = -lr * gamma
+      tol = 64 * u32 * (float(np.max(np.abs(want))) + 1e-300)
+      ok = float(np.max(np.abs(u - want))) <= tol
+      ctx.ev('warmup_graft', 'ok' if ok else 'violation')
+      if not ok:
+        ctx.violate('warmup_graft', mk, 'masked_leaf' if lay['masked']
+                    else 'before_start_step', tick=t, leaf=i)
+      continue
+    # direction from the implementation's own stored roots / sketch
+    if view.so == 'shampoo':
+      base = ref.shampoo_direction(lay, rec['grads'][i], m['impl_roots'])
+      amp = float(np.prod([max(float(np.max(np.abs(x))), 1e-300)
+                           for x in m['impl_roots']])) if m['impl_roots'] else 1.0
+    else:
+      base = m['base']
+      amp = 1.0
+      for a in m['impl_axes']:
+        amp *= max(float(np.max(np.abs(a['inv']))) if a['inv'].size else 0.0,
+                   abs(a['inv_tail']), 1e-300)
+    nb = float(np.linalg.norm(base))
+    ng = float(np.linalg.norm(gamma))
+    nu = float(np.linalg.norm(u))
+    g = rec['grads'][i]
+    err = 64 * u32 * amp * float(np.linalg.norm(g)) * (sum(lay['padded']) + 4)
+    if not (np.isfinite(nb) and np.isfinite(nu)):
+      ctx.ev('graft_norm', 'vacuous')
+      continue
+    if nb == 0.0:
+      ok = nu == 0.0
+      ctx.ev('graft_norm', 'ok' if ok else 'violation')
+      if not ok:
+        ctx.violate('graft_norm', mk, 'nonzero_update_for_zero_direction',
+                    tick=t, leaf=i)
+      continue
+    if nb <= 10 * err:
+      ctx.ev('graft_norm', 'vacuous')
+      ctx.ev('graft_dir', 'vacuous')
+      continue
+    want_norm = abs(lr) * ng
+    rel = 1e-5 + 4 * err / nb
+    ok = abs(nu - want_norm) <= rel * max(want_norm, 1e-300) + 1e-38
+    ctx.ev('graft_norm', 'ok' if ok else 'violation',
+           abs(nu - want_norm) / (rel * max(want_norm, 1e-300) + 1e-38))
+    if not ok:
+      ctx.violate('graft_norm', mk, 'norm_not_transplanted', tick=t, leaf=i,
+                  got=nu, want=want_norm)
+    if nu > 0 and want_norm > 0:
+      dirn = float(np.linalg.norm(u / nu + np.sign(lr) * base / nb))
+      if rel > 0.05:
+        ctx.ev('graft_dir', 'vacuous')
+      else:
+        ok = dirn <= rel
+        ctx.ev('graft_dir', 'ok' if ok else 'violation', dirn / rel)
+        if not ok:
+          ctx.violate('graft_dir', mk, 'direction_not_preconditioned_grad',
+                      tick=t, leaf=i, angle=dirn, tol=rel)
+  ctx.state('graft', mk, gt, int(t >= S), rec['opkind'])
+
+
+ORACLES = {'cadence': cadence, 'refine': refine, 'warmup': warmup,
+           'graft': graft}
 
 
 def register(name, fn):
